@@ -243,6 +243,8 @@ def explore(run, tier):
         parts = [rkey(klen) for _ in range(n)]
         if rng.random() < 0.3 and n >= 2:
             parts[-1] = parts[0]                  # a component given twice cancels
+        if rng.random() < 0.2:
+            parts = [p.upper() if rng.random() < 0.7 else p for p in parts]     # key components are usually typed in capitals
         cases.append({'k': 'zmk', 'parts': parts})
         perm = parts[:]
         rng.shuffle(perm)
@@ -250,4 +252,9 @@ def explore(run, tier):
         cases.append({'k': 'enczmk', 'parts': parts, 'mk': rkey(rng.choice([16, 24]))})
         cases.append({'k': 'kcv', 'key': rkey(rng.choice([16, 24])), 'n': rng.choice([6, 6, 4, 16, 1])})
     cases.append({'k': 'zmk', 'parts': ['6D6BE51F04F76167491554FE25F7ABEF', '67499B2CF137DFCB9EA28FF757CD10A7']})
+    # one component (capitals; a single-length, 16-digit one is widened to 32 digits), and none at all (the zero key)
+    for parts in (['6D6BE51F04F76167491554FE25F7ABEF'], ['0123456789ABCDEF'], ['0123456789abcdef'], [], ['00' * 16],
+                  ['0123456789ABCDEF', 'FEDCBA9876543210'], ['ab' * 24]):
+        cases.append({'k': 'zmk', 'parts': parts})
+        cases.append({'k': 'enczmk', 'parts': parts, 'mk': '0123456789abcdeffedcba9876543210'})
     run.correspond(__name__, cases, use_model=run.use_model, chunk=300)
